@@ -1,20 +1,28 @@
 package main
 
-// The decode server: a second process of this same binary (WC04_SERVER=1) that performs the
-// hostile decodes of fault space 2 one at a time and reports, per decode, whether the call
-// returned or panicked, the exact number of bytes allocated (runtime.MemStats.TotalAlloc
+// The decode server: a second process of this same binary (WC04_SERVER=1) that performs
+// EVERY decode of this check — the admission decode of a corpus element, the prefixes of
+// fault space 1, the hostile mutants of fault space 2 and the connection-mode scenarios — one
+// at a time and reports, per decode, whether the call returned or panicked, whether the
+// stream was consumed, the exact number of bytes allocated (runtime.MemStats.TotalAlloc
 // around the call, single decoding goroutine) and the CPU time the process burnt.
 //
-// Why a process of its own: a hostile length can end the decoding process with an
-// unrecoverable runtime error ("out of memory", "stack overflow"). The worker that owns the
-// evidence counters must survive that, name the exact input, and go on. The worker streams
-// requests over a pipe; when the server dies the first unanswered request is the culprit, its
-// stderr says how it died, and a fresh server takes over. The server inherits the address
-// space limit (ulimit -v) the driver put on the worker.
+// Why a process of its own: a decode of a damaged input can end the decoding process with an
+// unrecoverable runtime error ("out of memory", "stack overflow") or never return. The worker
+// that owns the evidence counters must survive that, name the exact input, and go on: a
+// goroutine cannot be killed, a process can. The worker streams requests over a pipe; when
+// the server dies the first unanswered (sub-)request is the culprit, its stderr says how it
+// died, and a fresh server takes over. The server inherits the address space limit
+// (ulimit -v) the driver put on the worker.
 //
 // Termination is decided on CPU time: the worker polls the server's consumed CPU
 // (/proc/<pid>/stat) while an answer is outstanding; 20 s of CPU for one input of at most
 // 64 KiB is a violation ("nonterminating"), a stall without CPU consumption is inconclusive.
+//
+// Request kinds (mode): modeHostile — one input, deep decode; modeAdmit — one input, strict
+// decode; modeTrunc — one valid encoding and a list of cut offsets, one answer per prefix;
+// modeNet — one valid encoding and a list of connection scenarios, one answer per scenario
+// (net.go).
 
 import (
 	"bufio"
@@ -34,12 +42,20 @@ import (
 
 const (
 	cpuLimit       = 20 * time.Second  // CPU budget of one decode
+	cpuAbandon     = 1 * time.Second   // CPU after which a decode is abandoned once the process has paid ntFullPrice budgets (main.go)
 	stallLimit     = 180 * time.Second // wall time without an answer and without CPU use ⇒ inconclusive
-	reqHeaderLen   = 8
+	reqHeaderLen   = 12
 	respLen        = 1 + 8 + 8 + 8
 	maxBatchBytes  = 40 << 10
 	retireAfter    = 128 << 20 // a server that allocated this much in one decode is replaced
 	serverHeadroom = 1 << 30   // address space a decode server may add to what it starts with
+)
+
+const (
+	modeHostile = 0 // one input, deep decode
+	modeAdmit   = 1 // one input, strict decode
+	modeTrunc   = 2 // valid encoding + cut offsets: strict decode of every listed prefix
+	modeNet     = 3 // valid encoding + scenarios: strict decode over a connection (net.go)
 )
 
 // selfVMSize is the mapped address space of this process in bytes (0 if unknown).
@@ -65,20 +81,21 @@ func selfCPU() time.Duration {
 	return time.Duration(ru.Utime.Nano() + ru.Stime.Nano())
 }
 
-// measured decode (used by the server; also by the worker itself for replays of one case)
+// one measured decode
 type measure struct {
 	Panicked bool
+	Consumed bool // strict decodes: the stream reported no unread byte after a normal return
 	Alloc    uint64
 	CPU      time.Duration
 }
 
-func measuredDecode(d *decoder, b []byte) measure {
+func measuredDecode(d *decoder, deep bool, b []byte) measure {
 	var m0, m1 runtime.MemStats
 	c0 := selfCPU()
 	runtime.ReadMemStats(&m0)
-	o := runDecode(d, true, b)
+	o := runDecode(d, deep, b)
 	runtime.ReadMemStats(&m1)
-	return measure{o.Panicked, m1.TotalAlloc - m0.TotalAlloc, selfCPU() - c0}
+	return measure{o.Panicked, o.Consumed, m1.TotalAlloc - m0.TotalAlloc, selfCPU() - c0}
 }
 
 func serverMain() {
@@ -98,21 +115,15 @@ func serverMain() {
 	bw := bufio.NewWriterSize(os.Stdout, 1<<16)
 	hdr := make([]byte, reqHeaderLen)
 	resp := make([]byte, respLen)
-	for {
-		if _, err := io.ReadFull(br, hdr); err != nil {
-			bw.Flush()
-			return
-		}
-		di := int(binary.BigEndian.Uint32(hdr[0:4]))
-		n := int(binary.BigEndian.Uint32(hdr[4:8]))
-		buf := make([]byte, n)
-		if _, err := io.ReadFull(br, buf); err != nil {
-			return
-		}
-		m := measuredDecode(&decoders[di], buf)
+	// every answer leaves the process before the next decode starts: the first unanswered
+	// (sub-)request is then exactly the one that ended the process
+	answer := func(m measure) {
 		resp[0] = 0
 		if m.Panicked {
-			resp[0] = 1
+			resp[0] |= 1
+		}
+		if m.Consumed {
+			resp[0] |= 4
 		}
 		binary.BigEndian.PutUint64(resp[1:], m.Alloc)
 		binary.BigEndian.PutUint64(resp[9:], uint64(m.CPU))
@@ -126,10 +137,41 @@ func serverMain() {
 			bw.Flush()
 			os.Exit(0)
 		}
-		// every answer leaves the process before the next decode starts: the first unanswered
-		// request is then exactly the one that ended the process
 		bw.Write(resp)
 		bw.Flush()
+	}
+	for {
+		if _, err := io.ReadFull(br, hdr); err != nil {
+			bw.Flush()
+			return
+		}
+		di := int(binary.BigEndian.Uint32(hdr[0:4]))
+		mode := int(binary.BigEndian.Uint32(hdr[4:8]))
+		n := int(binary.BigEndian.Uint32(hdr[8:12]))
+		buf := make([]byte, n)
+		if _, err := io.ReadFull(br, buf); err != nil {
+			return
+		}
+		d := &decoders[di]
+		switch mode {
+		case modeHostile:
+			answer(measuredDecode(d, true, buf))
+		case modeAdmit:
+			answer(measuredDecode(d, false, buf))
+		case modeTrunc:
+			k := int(binary.BigEndian.Uint32(buf))
+			cuts, enc := buf[4:4+4*k], buf[4+4*k:]
+			for i := 0; i < k; i++ {
+				cut := int(binary.BigEndian.Uint32(cuts[4*i:]))
+				answer(measuredDecode(d, false, enc[:cut]))
+			}
+		case modeNet:
+			k := int(binary.BigEndian.Uint32(buf))
+			sc, enc := buf[4:4+netScenLen*k], buf[4+netScenLen*k:]
+			for i := 0; i < k; i++ {
+				answer(netDecode(d, enc, parseNetScen(sc[netScenLen*i:])))
+			}
+		}
 	}
 }
 
@@ -188,7 +230,7 @@ func startServer(outDir string) (*server, error) {
 				s.ch <- srvResp{err: err}
 				return
 			}
-			s.ch <- srvResp{m: measure{buf[0]&1 == 1, binary.BigEndian.Uint64(buf[1:]), time.Duration(binary.BigEndian.Uint64(buf[9:]))},
+			s.ch <- srvResp{m: measure{buf[0]&1 == 1, buf[0]&4 != 0, binary.BigEndian.Uint64(buf[1:]), time.Duration(binary.BigEndian.Uint64(buf[9:]))},
 				cumCPU: time.Duration(binary.BigEndian.Uint64(buf[17:])), retire: buf[0]&2 != 0}
 		}
 	}()
@@ -247,7 +289,7 @@ func (s *server) stop() {
 }
 
 type death struct {
-	Kind   string // fatal | nonterminating | stall | lost
+	Kind   string // fatal | nonterminating | abandoned | stall | lost
 	Reason string
 	Stderr string
 }
@@ -275,25 +317,95 @@ func (s *server) diedHow() death {
 	return death{"lost", fmt.Sprintf("decode server ended without a runtime message (%v)", err), txt}
 }
 
-// one request of a batch
+// one request of a batch. modeHostile / modeAdmit: b is the input, one answer. modeTrunc: b is
+// the valid encoding, one answer per entry of cuts. modeNet: b is the valid encoding, one
+// answer per entry of scen.
 type req struct {
-	dec int
-	b   []byte
+	dec  int
+	mode int
+	b    []byte
+	cuts []int
+	scen []netScen
+	// multi-answer requests: after this many deaths of the server inside this request the
+	// remaining sub-requests are not sent any more (res.skipped); 0 = no limit
+	maxDeaths int
 }
 
-// result of one request: either a measurement or the way the server died on it
+func (q *req) answers() int {
+	switch q.mode {
+	case modeTrunc:
+		return len(q.cuts)
+	case modeNet:
+		return len(q.scen)
+	}
+	return 1
+}
+
+// wire serialises the request with its sub-requests from..end.
+func (q *req) wire(from int) []byte {
+	var payload []byte
+	switch q.mode {
+	case modeTrunc:
+		cs := q.cuts[from:]
+		payload = make([]byte, 0, 4+4*len(cs)+len(q.b))
+		payload = binary.BigEndian.AppendUint32(payload, uint32(len(cs)))
+		for _, k := range cs {
+			payload = binary.BigEndian.AppendUint32(payload, uint32(k))
+		}
+		payload = append(payload, q.b...)
+	case modeNet:
+		ss := q.scen[from:]
+		payload = make([]byte, 0, 4+netScenLen*len(ss)+len(q.b))
+		payload = binary.BigEndian.AppendUint32(payload, uint32(len(ss)))
+		for _, sc := range ss {
+			payload = sc.append(payload)
+		}
+		payload = append(payload, q.b...)
+	default:
+		payload = q.b
+	}
+	out := make([]byte, 0, reqHeaderLen+len(payload))
+	out = binary.BigEndian.AppendUint32(out, uint32(q.dec))
+	out = binary.BigEndian.AppendUint32(out, uint32(q.mode))
+	out = binary.BigEndian.AppendUint32(out, uint32(len(payload)))
+	return append(out, payload...)
+}
+
+// result of one (sub-)request: a measurement, the way the server died on it, or skipped
 type res struct {
-	m    measure
-	died *death
+	m       measure
+	died    *death
+	skipped bool
 }
 
-// runBatch performs the requests in order and returns one result per request. A server
-// death is attributed to the first unanswered request; the remaining ones are re-sent to a
-// fresh server.
-func runBatch(sp **server, outDir string, reqs []req) ([]res, error) {
-	out := make([]res, len(reqs))
-	next := 0
+// runBatch performs the requests in order and returns, per request, one result per answer. A
+// server death is attributed to the first unanswered (sub-)request; what remains is re-sent to
+// a fresh server. The CPU one decode may burn before the server is killed is cpuBudget():
+// cpuLimit (⇒ death kind "nonterminating") or, when the process has already paid for its
+// share of non-terminating decodes, cpuAbandon (⇒ death kind "abandoned", not a verdict).
+func runBatch(sp **server, outDir string, reqs []req) ([][]res, error) {
+	out := make([][]res, len(reqs))
+	for i := range reqs {
+		out[i] = make([]res, reqs[i].answers())
+	}
+	deaths := make([]int, len(reqs))
+	next, sub := 0, 0 // first unanswered request / answer within it
+	// skip over requests without answers
+	norm := func() {
+		for next < len(reqs) && sub >= len(out[next]) {
+			next++
+			sub = 0
+		}
+	}
+	norm()
 	for next < len(reqs) {
+		if q := &reqs[next]; q.maxDeaths > 0 && deaths[next] >= q.maxDeaths {
+			for ; sub < len(out[next]); sub++ {
+				out[next][sub] = res{skipped: true}
+			}
+			norm()
+			continue
+		}
 		if *sp == nil {
 			s, err := startServer(outDir)
 			if err != nil {
@@ -302,23 +414,25 @@ func runBatch(sp **server, outDir string, reqs []req) ([]res, error) {
 			*sp = s
 		}
 		s := *sp
+		limit := cpuBudget()
 		// send a slice of the remaining requests that fits the pipe (or a single large one)
-		end, bytes := next, 0
-		for end < len(reqs) && (end == next || bytes+len(reqs[end].b)+reqHeaderLen <= maxBatchBytes) {
-			bytes += len(reqs[end].b) + reqHeaderLen
+		var buf []byte
+		end := next
+		for end < len(reqs) {
+			from := 0
+			if end == next {
+				from = sub
+			}
+			w := reqs[end].wire(from)
+			if end > next && len(buf)+len(w) > maxBatchBytes {
+				break
+			}
+			buf = append(buf, w...)
 			end++
-		}
-		buf := make([]byte, 0, bytes)
-		for _, q := range reqs[next:end] {
-			var h [reqHeaderLen]byte
-			binary.BigEndian.PutUint32(h[0:], uint32(q.dec))
-			binary.BigEndian.PutUint32(h[4:], uint32(len(q.b)))
-			buf = append(buf, h[:]...)
-			buf = append(buf, q.b...)
 		}
 		werr := make(chan error, 1)
 		go func() { _, e := s.in.Write(buf); werr <- e }()
-		tick := time.NewTicker(250 * time.Millisecond)
+		tick := time.NewTicker(100 * time.Millisecond)
 		lastAnswer := time.Now()
 		dead, retired := false, false
 		for next < end && !dead {
@@ -331,11 +445,11 @@ func runBatch(sp **server, outDir string, reqs []req) ([]res, error) {
 					if dbg {
 						fmt.Fprintf(os.Stderr, "DBG death after %v since last answer; diedHow %v; %s\n", t0.Sub(lastAnswer), time.Since(t0), d.Reason)
 					}
-					out[next] = res{died: &d}
+					out[next][sub] = res{died: &d}
 					dead = true
 					break
 				}
-				out[next] = res{m: r.m}
+				out[next][sub] = res{m: r.m}
 				s.lastCPU = r.cumCPU
 				s.n++
 				lastAnswer = time.Now()
@@ -347,15 +461,21 @@ func runBatch(sp **server, outDir string, reqs []req) ([]res, error) {
 					dead = true
 					break
 				}
-				next++
+				sub++
+				norm()
 			case <-tick.C:
-				if cpu, ok := procCPU(s.cmd.Process.Pid); ok && cpu-s.lastCPU > cpuLimit+time.Second {
+				if cpu, ok := procCPU(s.cmd.Process.Pid); ok && cpu-s.lastCPU > limit+limit/20 {
 					s.kill()
-					out[next] = res{died: &death{Kind: "nonterminating", Reason: fmt.Sprintf("decode consumed more than %v of CPU without returning", cpuLimit)}}
+					if limit >= cpuLimit {
+						ntPaid++
+						out[next][sub] = res{died: &death{Kind: "nonterminating", Reason: fmt.Sprintf("decode consumed more than %v of CPU without returning", cpuLimit)}}
+					} else {
+						out[next][sub] = res{died: &death{Kind: "abandoned", Reason: fmt.Sprintf("decode abandoned after %v of CPU (this process had already paid for %d non-terminating decodes)", limit, ntFullPrice)}}
+					}
 					dead = true
 				} else if time.Since(lastAnswer) > stallLimit {
 					s.kill()
-					out[next] = res{died: &death{Kind: "stall", Reason: fmt.Sprintf("no answer for %v of wall time while consuming less than %v of CPU", stallLimit, cpuLimit)}}
+					out[next][sub] = res{died: &death{Kind: "stall", Reason: fmt.Sprintf("no answer for %v of wall time while consuming less than %v of CPU", stallLimit, limit)}}
 					dead = true
 				}
 			}
@@ -368,8 +488,10 @@ func runBatch(sp **server, outDir string, reqs []req) ([]res, error) {
 				c.Count("decode_servers_replaced_after_giant_allocation", 1)
 			} else {
 				c.Count("decode_servers_lost", 1)
+				deaths[next]++
 			}
-			next++ // this request has its result; continue after it
+			sub++ // this (sub-)request has its result; continue after it
+			norm()
 			continue
 		}
 		<-werr
